@@ -162,7 +162,7 @@ def sequence(ctx, pending, steps):
         n_lp = sum(1 for _, v in state["vaults"] if v["nft"])
         n_free = sum(1 for _, p in state["positions"] if not p["transferred"])
         pending.append(({"fn": "views", "ctx": "py", "state": state, "env": envj}, obs, replay, last))
-        ctx.case(f"{last}:lp{min(n_lp, 2)}:free{min(n_free, 2)}:v{min(len(state['vaults']), 3)}:{world.env.get('kind', '')}", {"after": last, "vaults": len(state["vaults"])})
+        ctx.case(f"{'flip:' if world.env.get('flip') else ''}{last}:lp{min(n_lp, 2)}:free{min(n_free, 2)}:v{min(len(state['vaults']), 3)}:{world.env.get('kind', '')}", {"after": last, "vaults": len(state["vaults"])})
         if i == steps:
             break
         if rng.random() < 0.3:
@@ -174,14 +174,169 @@ def sequence(ctx, pending, steps):
         last = f"{op['k']}:{'ok' if err is None else err}"
 
 
+def view_point(ctx, world, pending, last, tag):
+    state = world.dump_state()
+    envj = L.snapshot_env(world)
+    tw, to = world.sq.get_twap_price(world.weth), world.sq.get_twap_price(world.osqth)
+    obs = observe_views(world)
+    replay = {"spec": state, "env": dict(world.env), "after": last}
+    oracle(ctx, state, world.env, envj, tw, to, world.cur(), obs, replay, last)
+    pending.append(({"fn": "views", "ctx": "py", "state": state, "env": envj}, obs, replay, last))
+    ctx.case(f"{'flip:' if world.env.get('flip') else ''}{tag}:{last}", {"after": last})
+
+
+LP_OPS = ["reduceDebt", "reduceDebt-nobounty", "liquidate", "update", "withdrawUni", "depositUni", "uniRemove", "burnWithdraw", "openMint"]
+
+
+def lent_lp_directed(ctx, pending):
+    """a vault that holds an LP position as collateral (the position is `transferred`, i.e. lent), then — with the pool market open or
+    CLOSED, prices as they were or shocked so that the vault is unsafe — every operation that touches the position, each from the same state.
+    Whatever the call does (accepted, rejected at any point), afterwards every position is counted exactly once."""
+    rng = ctx.rng
+    env = G.gen_env(rng, rng.choice(["spot", "twap"]))
+    env["uniOpen"] = True
+    world = L.World(G.empty_state(rng, with_osqth=True), env)
+    keys = [k for k in (G.add_position(rng, world, fees=rng.random() < 0.5) for _ in range(2)) if k]
+    if not keys:
+        return
+    idx = G.index_price(world)
+    dep = G.dec(rng, 1, 6, 4)
+    st0 = world.dump_state()
+    sp = L.Spec(st0, world.env, world.sq.get_twap_price(world.weth), world.sq.get_twap_price(world.osqth), world.cur()[0])
+    lw, lq = sp.lp_tokens(keys[0])
+    eff = dep + D(float(lw)) + D(float(lq)) * idx          # what the vault will hold: ETH + the position at the index price
+    mint = eff / D("1.5") / idx * D(str(rng.choice([0.5, 0.9, 0.97, 0.999]))) if idx > 0 else D(1)
+    err, out, _ = world.apply_op({"k": "openMint", "deposit": dep, "mint": mint, "vk": None, "pos": keys[0]})
+    if err is not None:
+        ctx.case("lent-lp:setup-rejected")
+        return
+    vk = int(out[0])
+    base_spec, base_env = world.dump_state(), dict(world.env)
+    for closed in (True, False):
+        for shock in (None, 1.6, 0.6):
+            env2 = dict(base_env)
+            if shock:
+                rows = [[r[0], r[1], G.q(r[2] * D(str(shock)), 4), G.q(r[3] * D(str(shock)), 10)] for r in env2["rows"]]
+                env2["rows"] = rows
+                env2["cur"] = [env2["cur"][0], G.q(env2["cur"][1] * D(str(shock)), 4), G.q(env2["cur"][2] * D(str(shock)), 10)]
+            env2["uniOpen"] = not closed
+            for name in LP_OPS:
+                w = L.World(G.parse_spec(base_spec), env2)
+                st = w.dump_state()
+                v = dict((int(k), x) for k, x in st["vaults"])[vk]
+                op = {"reduceDebt": {"k": "reduceDebt", "vk": vk, "payBounty": True}, "reduceDebt-nobounty": {"k": "reduceDebt", "vk": vk, "payBounty": False},
+                      "liquidate": {"k": "liquidate", "vk": vk}, "update": {"k": "update"}, "withdrawUni": {"k": "withdrawUni", "vk": vk, "pos": keys[0]},
+                      "depositUni": {"k": "depositUni", "vk": vk, "pos": keys[-1]}, "uniRemove": {"k": "uniRemove", "pos": keys[0]},
+                      "burnWithdraw": {"k": "burnWithdraw", "vk": vk, "burn": v["short"] / 2, "withdraw": v["coll"] / 3},
+                      "openMint": {"k": "openMint", "deposit": D(1), "mint": D(0), "vk": None, "pos": keys[0]}}[name]
+                err, _, _ = w.apply_op(op)
+                view_point(ctx, w, pending, f"{name}:{'ok' if err is None else err}", f"lent-lp:{'closed' if closed else 'open'}:{'shock' + str(shock) if shock else 'flat'}")
+
+
+def actuator_runs(ctx, pending):
+    """whole backtests through the real Actuator: minutely oSQTH/WETH pool + SqueethMarket over a generated price / norm-factor path with a
+    shock; the strategy adds liquidity, opens vaults (some with the LP position lent as collateral), deposits / withdraws the LP, burns and
+    withdraws at random bars; `update()` liquidates at bar end.  At EVERY bar, after `update()`, the raw state is valued independently and
+    compared with the views, and the net value the run REPORTS for that bar (`Actuator._account_status_list`) must be that same number."""
+    import contextlib
+    import io
+    import logging
+    import os
+    import pandas as pd
+    from datetime import timedelta
+    os.environ["TQDM_DISABLE"] = "1"
+    from demeter import Strategy, Actuator
+    rng = ctx.rng
+    logging.disable(logging.CRITICAL)
+    n = rng.randint(8, 20)
+    rows = G.gen_rows(rng, n, 1, (rng.randint(2, n - 2), rng.choice([1.25, 1.5, 2.0, 0.7])))
+    idx = pd.DatetimeIndex([L.BASE + timedelta(minutes=r[0]) for r in rows])
+    sqdf = pd.DataFrame(index=idx, data={"norm_factor": [r[1] for r in rows], "WETH": [r[2] for r in rows], "OSQTH": [r[3] for r in rows]})
+    uprices = [G.q(r[3] * D(str(1 + rng.uniform(-0.03, 0.03))), 10) for r in rows]      # pool (mark) price differs from the squeeth data's
+    z = [0] * n
+    unidf = pd.DataFrame(index=idx, data={"netAmount0": z, "netAmount1": z, "closeTick": z, "openTick": z, "lowestTick": z, "highestTick": z,
+                                          "inAmount0": z, "inAmount1": z, "currentLiquidity": [10 ** 22] * n, "price": uprices,
+                                          "volume0": [D(0)] * n, "volume1": [D(0)] * n, "open": uprices, "low": uprices, "high": uprices})
+    m = L.imports()
+    weth, osqth = m["TokenInfo"]("weth", 18), m["TokenInfo"]("osqth", 18)
+    flip = rng.random() < 0.25
+    pool = m["UniV3Pool"](osqth, weth, 0.3, weth) if flip else m["UniV3Pool"](weth, osqth, 0.3, weth)
+    uni = m["UniLpMarket"](m["MarketInfo"]("Uni", m["MarketTypeEnum"].uniswap_v3), pool, data=unidf)
+    sq = m["SqueethMarket"](m["MarketInfo"]("Squeeth", m["MarketTypeEnum"].squeeth), uni, data=sqdf)
+    act = Actuator()
+    act.broker.add_market(uni)
+    act.broker.add_market(sq)
+    act.broker.set_balance(weth, D(60))
+    act.broker.set_balance(osqth, D(40))
+    price = sqdf[["WETH", "OSQTH"]].copy()
+    price["OSQTH"] = price["OSQTH"] * price["WETH"]
+    act.set_price(price)
+    L._patch_twap()
+    view = L.World.__new__(L.World)
+    view.m, view.weth, view.osqth, view.broker, view.uni, view.sq = m, weth, osqth, act.broker, uni, sq
+    view.tokens = {"WETH": weth, "OSQTH": osqth}
+    view.log, view.flip = [], flip
+    seen = []
+
+    class Strat(Strategy):
+        def on_bar(self, snapshot):
+            i = list(idx).index(snapshot.timestamp)
+            view.env = {"rows": rows, "now": rows[i][0], "cur": rows[i][1:], "uniPrice": uprices[i], "uniOpen": True, "kind": "actuator-run"}
+            if flip:
+                view.env["flip"] = True
+            for _ in range(rng.choice([0, 1, 1, 2])):
+                if rng.random() < 0.25:
+                    G.add_position(rng, view, fees=rng.random() < 0.3)
+                    continue
+                op, _ = G.gen_op(rng, view, view.dump_state())
+                if op["k"] in ("update", "reduceDebt"):
+                    continue
+                view.apply_op(op)
+
+        def after_bar(self, snapshot):
+            state = view.dump_state()
+            envj = L.snapshot_env(view)
+            tw, to = sq.get_twap_price(weth), sq.get_twap_price(osqth)
+            seen.append((state, dict(view.env), envj, tw, to, view.cur(), observe_views(view)))
+
+    act.strategy = Strat()
+    try:
+        with contextlib.redirect_stderr(io.StringIO()), contextlib.redirect_stdout(io.StringIO()):
+            act.run(False)
+    except Exception as ex:  # noqa: BLE001
+        if "is not open" not in str(ex):
+            ctx.violate(f"squeeth.run.raises:{type(ex).__name__}", f"Actuator.run raised {type(ex).__name__}({str(ex)[:80]})", {"rows": rows})
+    finally:
+        logging.disable(logging.NOTSET)
+    for k, (state, env, envj, tw, to, cur, obs) in enumerate(seen):
+        last = f"run-bar{min(k, 3)}"
+        replay = {"spec": state, "env": env, "after": f"actuator run, bar {k}"}
+        oracle(ctx, state, env, envj, tw, to, cur, obs, replay, last)
+        if k < len(act._account_status_list) and "account_net_value" in obs:
+            rep_nv = D(act._account_status_list[k].net_value)
+            if L.fr(rep_nv) != L.fr(obs["account_net_value"]):
+                ctx.violate("squeeth.run.reported-net-value", f"bar {k}: the run reports net value {rep_nv}, the account valued in the state after update() is "
+                            f"{obs['account_net_value']}", replay)
+        if not flip:
+            pending.append(({"fn": "views", "ctx": "py", "state": state, "env": envj}, obs, replay, last))
+        n_lp = sum(1 for _, v in state["vaults"] if v["nft"])
+        ctx.case(f"{'flip:' if flip else ''}actuator-run:lp{min(n_lp, 2)}:v{min(len(state['vaults']), 3)}:free{min(sum(1 for _, p in state['positions'] if not p['transferred']), 2)}")
+    ctx.count("actuator_runs")
+
+
 def run(ctx: Ctx):
     pending = []
     for _ in range(ctx.scale(110, 4000)):
         sequence(ctx, pending, ctx.rng.randint(3, 12))
+    for _ in range(ctx.scale(6, 120)):
+        lent_lp_directed(ctx, pending)
+    for _ in range(ctx.scale(15, 300)):
+        actuator_runs(ctx, pending)
     ctx.impl_traces = len(pending)
     if ctx.driver_ok and pending:
-        answers = driver_json([p[0] for p in pending], exe="driver_squeeth")
-        for (req, obs, replay, last), ans in zip(pending, answers):
+        modelled = [p for p in pending if not p[2]["env"].get("flip")]      # the model knows the mainnet orientation (token0 = WETH) only
+        answers = driver_json([p[0] for p in modelled], exe="driver_squeeth")
+        for (req, obs, replay, last), ans in zip(modelled, answers):
             compare_views(ctx, ans, obs, replay, last)
 
 
